@@ -240,7 +240,9 @@ class Gen:
                 self.ncw += 1
                 cw.append(100 + self.ncw)
             cv = [bool(rng.integers(2)) for _ in range(nc)]
-            return ["ctrl", sub(), cw, cv]
+            # qp.ctrl flattens a Controlled operand (ctrl(ctrl(x)) -> Controlled(x, both controls)), so like the eager forms it
+            # only gets freshly created operands (for a re-used nested ctrl the statement does not say whether x leaves the queue)
+            return ["ctrl", self.expr(depth + 1, True, allow_ctrl, no_exp), cw, cv]
         if k in ("prod", "sum"):
             return [k, [sub() for _ in range(int(rng.integers(2, 4)))]]
         if k == "sprod":
@@ -278,6 +280,14 @@ class Gen:
         """expr / bind / apply / requeue (no contexts)."""
         rng = self.rng
         r = rng.random()
+        if in_fn and not allow_ctrl:
+            # body of ctrl(fn): qp.ctrl flattens a recorded Controlled (also a copy of one, which shares its base), so these
+            # bodies only create fresh operators (directly or through apply) - no references to existing objects
+            e = self.expr(fresh_only=True, allow_ctrl=False)
+            if r < 0.3:
+                self.features.add("apply")
+                return ["apply", e, None]
+            return ["expr", e]
         if r < 0.38:
             return ["expr", self.expr(allow_ctrl=allow_ctrl)]
         if r < 0.62 and not in_fn:
@@ -286,7 +296,7 @@ class Gen:
         if r < 0.85 and self.vars:
             self.features.add("apply")
             return ["apply", ["ref", self.vars[int(rng.integers(len(self.vars)))]], None]
-        if r < 0.93 and self.vars:
+        if r < 0.93 and self.vars and allow_ctrl:  # (bodies of ctrl(fn) never re-queue: ctrl would flatten a re-queued Controlled)
             self.features.add("requeue")
             return ["requeue", self.vars[int(rng.integers(len(self.vars)))]]
         if in_fn:
